@@ -177,3 +177,38 @@ pub fn no_block_when_unused() {
     }
     unsafe { assert!(A_ALLOCS == 0 && A_FREES == 0) };
 }
+
+/// HashMap::drain consumed through `fold` (the specialised path) after `pre` calls of next():
+/// every value reaches the closure exactly once and is not dropped again by the drain.
+pub fn map_drain_fold<const N: usize>(pre: usize) {
+    use hashbrown::HashMap;
+    reset_ledger();
+    let h: [u64; K] = any();
+    let mut m: HashMap<Key, D, TabHasher> = HashMap::with_capacity_and_hasher(capreq(N), TabHasher { h });
+    let st = fill::<(Key, D), _, N>(hv::raw_of_map(&mut m), Spec { items: SYM, deleted: SYM, kind: InvKind::Safe, h: &h, distinct: true, id_is_slot: false, layout: None, concrete_tags: None });
+    let mut held = [0u8; K];
+    {
+        let mut d = m.drain();
+        let mut j = 0;
+        while j < 2 {
+            if j < pre {
+                if let Some((_, v)) = d.next() {
+                    let (id, _) = take(v);
+                    held[id as usize] += 1;
+                }
+            }
+            j += 1;
+        }
+        held = d.fold(held, |mut hcc, (_, v)| {
+            assert!(drops(v.id) == 0);
+            let (id, _) = take(v);
+            hcc[id as usize] += 1;
+            hcc
+        });
+    }
+    let q = any_id();
+    assert!(held[q as usize] == st.mult(q) as u8); // each element handed out exactly once
+    assert!(drops(q) == 0); // and not dropped by the drain as well
+    assert!(m.len() == 0);
+    core::mem::forget(m);
+}
